@@ -600,6 +600,15 @@ func lifecycleRun(args []string) int {
 		e.waitExpires(mode)
 		e.expiredWaits(mode)
 	}
+	for i, mode := range lcModes {
+		e.traffic(r, mode, 600)
+		e.restartBuiltin(mode, []string{"stop", "cancel"}[i%2])
+		e.restartBuiltin(mode, []string{"cancel", "stop"}[i%2])
+		for k, op := range []string{"size", "head", "pop", "push", "all"} {
+			e.outageShutdown(mode, op, []string{"stop", "cancel"}[(i+k)%2])
+		}
+		e.lcNoLeak("traffic, restart-builtin and outage-shutdown scenarios (" + mode + ")")
+	}
 	e.waitThenRestart(*childIters)
 	seen := map[string]bool{}
 	for k := 0; k < *n; k++ {
